@@ -52,6 +52,11 @@ def main : IO Unit := do
     chk2 "block fetch: inflate buffer (compressed block of 20 bytes)" (fun u _ => n (Gen.rb_inflate_buf (5000 + u) 20 20)) (fun u _ => n (5000 + u)) "uncompress_buf_size − 5000, -",
     chk2 "block fetch: inflate buffer" (fun u bs => n (Gen.rb_inflate_buf u bs bs)) (fun u _ => n u) "uncompress_buf_size, block size",
     chk2 "block fetch: compressed file test" (fun u bs => s (Gen.rb_compressed u bs bs)) (fun u _ => s (decide (u > 0))) "uncompress_buf_size, block size",
+    chk2 "zoom record (bigWig): bases, items, sum, sum of squares added by a piece" (fun k v => toString [Gen.wzs_bases_add k v 0 0 0, Gen.wzs_items_add k v 0 0 0, Gen.wzs_sum_add k v 0 0 0, Gen.wzs_sumsq_add k v 0 0 0]) (fun k v => toString ([k, 1, k * v, k * v * v] : List Int)) "added bases, value",
+    chk2 "zoom record (bigBed): bases, items, sum, sum of squares added by a piece" (fun k v => toString [Gen.bzs2_bases_add k v 0 0 0, Gen.bzs2_items_add k v 0 0 0, Gen.bzs2_sum_add k v 0 0 0, Gen.bzs2_sumsq_add k v 0 0 0]) (fun k v => toString ([k, 1, k * v, k * v * v] : List Int)) "added bases, value",
+    chk2 "zoom record: running minimum / maximum" (fun a v => toString [Gen.wzs_min 1 v a a 0, Gen.wzs_max 1 v a a 0, Gen.bzs2_min 1 v a a 0, Gen.bzs2_max 1 v a a 0]) (fun a v => toString ([min a v, max a v, min a v, max a v] : List Int)) "so far, value",
+    chk2 "zoom record: fresh record (start, end, min, max, bases)" (fun st v => toString [Gen.wzs_new_start 0 v 0 0 st, Gen.wzs_new_end 0 v 0 0 st, Gen.wzs_new_min 0 v 0 0 st, Gen.wzs_new_max 0 v 0 0 st, Gen.wzs_new_bases 0 v 0 0 st, Gen.bzs2_new_start 0 v 0 0 st, Gen.bzs2_new_end 0 v 0 0 st, Gen.bzs2_new_min 0 v 0 0 st, Gen.bzs2_new_max 0 v 0 0 st, Gen.bzs2_new_bases 0 v 0 0 st]) (fun st v => toString ([st, st, v, v, 0, st, st, v, v, 0] : List Int)) "add_start, value",
+    chk2 "staging buffer: reported length (in memory; nothing written)" (fun k _ => toString [Gen.tb_len_inmem (4294967295 + k), Gen.tb_len_inmem k, Gen.tb_len_notstarted]) (fun k _ => toString [4294967295 + k, k, 0]) "staged bytes − (2^32 − 1), -",
     chk2 "bigWig value length" (fun e st => n (Gen.wig_len e st)) (fun e st => n (e - st)) "end, start",
     chk2 "section cut (bigWig), not the last item" (fun k i => s (Gen.wig_cut false k i)) (fun k i => s (decide (k ≥ min i 65535))) "items, items_per_slot",
     chk2 "section cut (bigBed), not the last item" (fun k i => s (Gen.bed_cut false k i)) (fun k i => s (decide (k ≥ min i 65535))) "items, items_per_slot",
